@@ -142,6 +142,8 @@ impl Compress {
         rr_type: Option<u16>,
         rr_rdlen: Option<usize>,
     ) {
+        #[cfg(feature = "verif_hooks")]
+        crate::verif_hooks::step("uncompress_rdata");
         let packet = &raw.packet;
         let offset_rdata = raw.name_end;
         let rdata = &packet[offset_rdata..];
@@ -642,6 +644,8 @@ impl SuffixDict {
     /// Returns the offset of an existing suffix, if there is any, or `None` if
     /// there was none.
     fn insert(&mut self, suffix: &[u8], offset: usize) -> Option<usize> {
+        #[cfg(feature = "verif_hooks")]
+        crate::verif_hooks::step("suffix_dict_insert");
         if offset >= 65536 >> 2 {
             return None;
         }
